@@ -3,7 +3,7 @@ C02 - CVSS v4.0 score equals the FIRST macrovector / interpolation algorithm.
 E1 product sweep on the real CVSS4 class against vf.ref.score4 (exact arithmetic, own table).
 """
 
-from .. import core, spaces, sweep
+from .. import core, observe, spaces, sweep
 from ..engine import product
 from ..ref import official, score4, tables as T
 
@@ -17,7 +17,7 @@ def judge(vec, asg):
 
     exp = score4.score(asg)
     try:
-        obj = cvss.CVSS4(vec)
+        obj = observe.construct("4.0", vec)
         got = obj.scores()
     except Exception as e:  # noqa
         return "constructor/scores() raised %s: %s" % (type(e).__name__, e), None, exp
